@@ -103,12 +103,13 @@ type Action struct {
 }
 
 const (
-	aStart    = 1
-	aStop     = 2
-	aStopCtx  = 3
-	aValidate = 4
-	aValOrDem = 5
-	aConn     = 7
+	aStart     = 1
+	aStop      = 2
+	aStopCtx   = 3
+	aValidate  = 4
+	aValOrDem  = 5
+	aConn      = 7
+	aCancelCtx = 8
 )
 
 func (w *World) inst(id string) *Inst {
@@ -147,9 +148,23 @@ func (w *World) do1(a Action) {
 	tr := w.tr
 	in := w.inst(a.I)
 	switch a.Do {
+	case "cancel_ctx":
+		// the application cancels the context it passed to Start
+		tr.rec("api", int64(in.idx), aCancelCtx, 0, 0, 0, 0, gid())
+		in.mu.Lock()
+		c := in.startCancel
+		in.mu.Unlock()
+		if c != nil {
+			c()
+		}
+		tr.rec("apiret", int64(in.idx), aCancelCtx, 0, 0, gid())
 	case "start":
 		tr.rec("api", int64(in.idx), aStart, 0, 0, 0, 0, gid())
-		err := in.el.Start(context.Background())
+		sctx, scancel := context.WithCancel(context.Background())
+		in.mu.Lock()
+		in.startCancel = scancel
+		in.mu.Unlock()
+		err := in.el.Start(sctx)
 		r := int64(0)
 		if errors.Is(err, leader.ErrAlreadyStarted) {
 			r = 1
